@@ -49,7 +49,10 @@ def handle(req):
         # key order as seen by a loader of the text just written
         try:
             y = yaml.load(t, Loader=loader)
-            exact = observe.value(y, ordered=False) == observe.value(x, ordered=False)
+            # the safe dumpers write a tuple as a plain sequence by design (it comes back as a list): for the
+            # fixed-point guard that is an exact round trip
+            tl = dumper in ('SafeDumper', 'CSafeDumper')
+            exact = observe.value(y, ordered=False, tuple_as_list=tl) == observe.value(x, ordered=False, tuple_as_list=tl)
         except yaml.YAMLError as exc:
             y, exact = None, False
             ans.setdefault('load_errors', []).append(type(exc).__name__)
